@@ -265,5 +265,7 @@ def run(rep: Report, tier: str) -> None:
 	rs.check(has_call(closure_fi(save), 'Serialization.dumps') and has_call(closure_fi(save), 'json.dumps') and any(isinstance(c_.func, ast.Attribute) and c_.func.attr == 'encode' and [const_str(a) for a in c_.args] == ['utf-8'] for b in closure_fi(save) for c_ in nodes(b, ast.Call)), 'save', save.where, 'EntryStored.save no longer writes json.dumps(Serialization.dumps(tree)) encoded as utf-8')
 	rs.check(has_call(closure_fi(load), 'json.load') and has_call(closure_fi(load), 'Serialization.loads') and has_call(closure_fi(load), 'EntryOfLark'), 'load', load.where, 'EntryStored.load no longer restores EntryOfLark(Serialization.loads(json.load(stream)))')
 	le = p.func('SyntaxParserOfLark.__load_entry')
-	fmt = [const_str(k.value) for n in ast.walk(le.node) if isinstance(n, ast.Call) for k in n.keywords if k.arg == 'format']
+	# the call may sit in a private helper of the parser class that __load_entry calls (`self.__entry_cache(basepath, source_path)`)
+	le_bodies = [le.node] + [g.node for c_ in ast.walk(le.node) if isinstance(c_, ast.Call) and isinstance(c_.func, ast.Attribute) and isinstance(c_.func.value, ast.Name) and c_.func.value.id == 'self' and le.cls is not None for g in [le.cls.method(c_.func.attr)] if g is not None and g is not le and g.name.startswith('_')]
+	fmt = [const_str(k.value) for b in le_bodies for n in ast.walk(b) if isinstance(n, ast.Call) for k in n.keywords if k.arg == 'format']
 	rs.check(fmt == ['json'], 'cache-format', le.where, f'the tree cache is opened with format={fmt}')
